@@ -61,7 +61,7 @@ class ConcH:
             out[idx] = complex(self.env['%sr_%s' % (name, tag)], self.env['%si_%s' % (name, tag)])
         return out
 
-    def angle(self, wname):
+    def angle(self, wname, full=False):
         return 2 * math.atan(float(self.env[wname]))
 
     def random_stub(self, mode):
